@@ -135,6 +135,99 @@ def flattenAll : List ArrayData → List (Nat × Nat) × List (List Nat)
     (a.1 ++ b.1, a.2 ++ b.2)
 end
 
+/-! ## buffer / field-node accounting per type and metadata version
+
+`RecordBatchDecoder::skip_field` (projection excludes the column) and `create_array` must consume
+exactly the field nodes and buffers the writer emitted for the column's subtree; what the writer
+emits depends on `has_validity_bitmap(type, version)`. -/
+
+/-- `has_validity_bitmap(data_type, write_options)` for metadata version `v` (4 or 5) -/
+def hasValidityBitmap (t : DType) (v : Nat) : Bool :=
+  if v < Generated.C04.HAS_VALIDITY_SPLIT_VERSION then
+    (match t with | .null => false | _ => true)
+  else
+    (match t with | .null | .union _ _ | .ree _ _ => false | _ => true)
+
+mutual
+/-- `(field nodes, buffers)` consumed for a column of type `t` under metadata version `v`;
+`unionBelow` is the version below which the Union arm consumes a validity buffer -/
+def consumeCount (unionBelow : Nat) : DType → Nat → Nat × Nat
+  | .null, _ => (1, 0)
+  | .bool, _ => (1, 2)
+  | .prim _, _ => (1, 2)
+  | .fsb _, _ => (1, 2)
+  | .utf8 _, _ => (1, 3)
+  | .binary _, _ => (1, 3)
+  | .list _ item _, v => let c := consumeCount unionBelow item v; (1 + c.1, 2 + c.2)
+  | .fsl _ item _, v => let c := consumeCount unionBelow item v; (1 + c.1, 1 + c.2)
+  | .struct fs, v => let c := consumeFields unionBelow fs v; (1 + c.1, 1 + c.2)
+  | .dict _ _ _, _ => (1, 2)
+  | .ree _ value, v =>
+    -- run ends are a primitive child: node + validity + values
+    let b := consumeCount unionBelow value v
+    (1 + 1 + b.1, 2 + b.2)
+  | .union dense fs, v =>
+    let own := (if v < unionBelow then 1 else 0) + 1 + (if dense then 1 else 0)
+    let c := consumeFields unionBelow fs v
+    (1 + c.1, own + c.2)
+def consumeFields (unionBelow : Nat) : Fields → Nat → Nat × Nat
+  | .nil, _ => (0, 0)
+  | .cons _ t _ r, v =>
+    let a := consumeCount unionBelow t v
+    let b := consumeFields unionBelow r v
+    (a.1 + b.1, a.2 + b.2)
+end
+
+/-- `RecordBatchDecoder::skip_field` -/
+def skipCount : DType → Nat → Nat × Nat := consumeCount Generated.C04.SKIP_UNION_VALIDITY_BELOW
+/-- `RecordBatchDecoder::create_array` -/
+def readCount : DType → Nat → Nat × Nat := consumeCount Generated.C04.READ_UNION_VALIDITY_BELOW
+
+/-- one node of a written column: type, validity present iff `has_validity_bitmap`, `nb` buffers -/
+def nodeOk (v : Nat) (t : DType) (x : ArrayData) (nb : Nat) : Bool :=
+  decide (x.type = t) && (x.nulls.isSome == hasValidityBitmap t v) && x.buffers.length == nb
+
+mutual
+/-- the structural shape of what `write_array_data` emits for a column of type `t` under
+metadata version `v` (buffer counts per layout, validity per `has_validity_bitmap`) -/
+def shapeOk (v : Nat) : DType → ArrayData → Bool
+  | .null, x => nodeOk v .null x 0 && x.children.isEmpty
+  | .bool, x => nodeOk v .bool x 1 && x.children.isEmpty
+  | .prim w, x => nodeOk v (.prim w) x 1 && x.children.isEmpty
+  | .fsb w, x => nodeOk v (.fsb w) x 1 && x.children.isEmpty
+  | .utf8 l, x => nodeOk v (.utf8 l) x 2 && x.children.isEmpty
+  | .binary l, x => nodeOk v (.binary l) x 2 && x.children.isEmpty
+  | .list l item n, x =>
+    nodeOk v (.list l item n) x 1 && (match x.children with | [c] => shapeOk v item c | _ => false)
+  | .fsl k item n, x =>
+    nodeOk v (.fsl k item n) x 0 && (match x.children with | [c] => shapeOk v item c | _ => false)
+  | .struct fs, x => nodeOk v (.struct fs) x 0 && shapeFields v fs x.children
+  | .dict kw s val, x => nodeOk v (.dict kw s val) x 1
+  | .ree rw val, x =>
+    nodeOk v (.ree rw val) x 0 &&
+      (match x.children with
+        | [re, vals] => nodeOk v (.prim rw) re 1 && re.children.isEmpty && shapeOk v val vals
+        | _ => false)
+  | .union dense fs, x =>
+    nodeOk v (.union dense fs) x (if dense then 2 else 1) && shapeFields v fs x.children
+def shapeFields (v : Nat) : Fields → List ArrayData → Bool
+  | .nil, [] => true
+  | .cons _ t _ r, c :: cs => shapeOk v t c && shapeFields v r cs
+  | _, _ => false
+end
+
+/-- no run-end encoded type anywhere -/
+def noRee : DType → Bool
+  | .ree _ _ => false
+  | .list _ item _ => noRee item
+  | .fsl _ item _ => noRee item
+  | .struct fs => noReeF fs
+  | .union _ fs => noReeF fs
+  | _ => true
+where noReeF : Fields → Bool
+  | .nil => true
+  | .cons _ t _ r => noRee t && noReeF r
+
 /-- dictionary value arrays in pre-order (delivered to the reader by the dictionary protocol) -/
 def dictChildren : ArrayData → List ArrayData
   | ⟨t, _, _, _, _, cs⟩ =>
